@@ -62,6 +62,9 @@ class Scheduler:
         n = len(t.inc.wire)
         if self.chunking == "whole" or n <= 1:
             return None
+        if self.chunking == "bytewise-start" and t.inc.delivered < 400:
+            # the beginning of every connection (relay answer, prologue, handshake) arrives one byte at a time
+            return 1
         x = self.rng.random()
         if x < 0.55:
             return None
